@@ -4,7 +4,6 @@ import (
 	"encoding/json"
 	"fmt"
 	"math"
-	"math/bits"
 
 	"github.com/tuneinsight/lattigo/v6/circuits/ckks/mod1"
 	"github.com/tuneinsight/lattigo/v6/core/rlwe"
@@ -529,8 +528,21 @@ func (p ParametersLiteral) BitConsumption(LogSlots int) (logQ int, err error) {
 		ReservedPrimeBitSize = Iterations.ReservedPrimeBitSize
 	}
 
-	/* #nosec G115 -- Mod1Degree, Mod1InvDegree cannot be negative */
-	logQ += 1 + EvalModLogPlaintextScale*(bits.Len64(uint64(Mod1Degree))+DoubleAngle+bits.Len64(uint64(Mod1InvDegree))) + ReservedPrimeBitSize
+	var K int
+	if K, err = p.GetK(); err != nil {
+		return
+	}
+
+	// Depth of the homomorphic modular reduction, as the bootstrapping parameters allocate it
+	Mod1Depth := mod1.ParametersLiteral{
+		Mod1Type:      p.GetMod1Type(),
+		Mod1Degree:    Mod1Degree,
+		DoubleAngle:   DoubleAngle,
+		K:             K,
+		Mod1InvDegree: Mod1InvDegree,
+	}.Depth()
+
+	logQ += 1 + EvalModLogPlaintextScale*Mod1Depth + ReservedPrimeBitSize
 
 	return
 }
